@@ -1428,24 +1428,29 @@ PROVED: `step_legal` (every call of the model is a `Stream.DLegal` step of `spec
 `model_any_segmentation_eq_oneShot` (with Props.C02), `progress_input`, `no_livelock`, `calls_bounded`; underneath them `micro_ok`,
 `loop_ok`, `finish_ok`, `stLoadHeader_ok`, `result_done`, `result_inframe`, `continue_acct`.
 
-NOT PROVED (time budget) — exact statements:
+PROVED in the follow-up modules (statements as announced here, see there):
 
-  (statement) theorem progress_output (all) (hok : AllOk all) (s) (hinv : Inv all s) (inAvail outCap)
+  Lemmas/DStreamHint.lean
+    theorem progress_output (all) (hok : AllOk all) (s) (hinv : Inv all s) (inAvail outCap)
       (hlim : s.totalIn + inAvail ≤ sizeAll all) (hss : s.ss = .flush) (hpend : s.outStart < s.outEnd) (ho : 0 < outCap)
       (hne : ∀ e, (step s inAvail outCap).2.ret ≠ .err e) : 0 < (step s inAvail outCap).2.produced
-    -- pending output and output room, even with no input.  Missing: `l.op` never decreases along `loop` (invariant-free, by cases
-    -- on the stage functions), the first turn (`stFlush`) makes `1 ≤ l.op`, and a loop started inside a frame never takes the
-    -- `hdrShort` return.  `progress_input` covers every call with `0 < inAvail ∧ 0 < outCap`.
+    -- pending output and output room, even with no input (`progress_output_core`: the invariant is not even needed: `l.op` never
+    -- decreases along `loop`, the first turn `stFlush` makes `1 ≤ l.op`, a loop started inside a frame never takes the `hdrShort` return).
     -- NOTE (true of the C code as well): with `outCap = 0` a call can report consumed = 0 although it took a byte, because the
     -- last byte of a frame is withheld (`hostageByte`) until the output is flushed — hence the `0 < outCap` hypothesis.
 
-  (statement) theorem hint_exact (f : FrameD) (hok : f.ok = true) (room : Nat) (hroom : f.blockSizeMax ≤ room) :
+    theorem hint_exact (f : FrameD) (hok : f.ok = true) (room : Nat) (hroom : f.blockSizeMax ≤ room)
+      (hwin : f.windowSize ≤ ZSTD_MAXWINDOWSIZE_DEFAULT) :
       hintedRets (2 * f.blocks.length + 8) (State.start [f]) 5 room = (Stream.hints f.shape).tail ++ [0]
-    -- checked by evaluation on `exFrame` above and call by call against the C code by tools/ent_dstream.py (in-size `h`);
-    -- with Props.C10.hints_within_frame this gives "never asks for bytes beyond the end of the current frame".
+    -- the statement announced here earlier had no `hwin`; without it the statement is FALSE (a frame with a 2^28 window is `ok`,
+    -- but the second call refuses it with windowTooLarge, as the C function does): see `bigWindowFrame` there.
+    -- with Props.C10.hints_within_frame this gives "never asks for bytes beyond the end of the current frame"
+    -- (Props.C10.dstream_hint_never_beyond_frame).
 
-  (statement) theorem ring_keeps_window (between calls, s.ss = .read, s.d.stage = .decodeBlockHeader or a block stage, frame buffered) :
-      (s.outStart + s.d.blockSizeMax ≤ s.outBuffSize ∨ fcs ≤ s.outBuffSize)                   -- room for the next block
+  Lemmas/DStreamRing.lean
+    structure RingInv, theorem ring_step (every call keeps it), theorem ring_keeps_window_inv / ring_keeps_window:
+      between calls, s.ss = .read, s.d.expected ≠ 0 (a block header, a block body or the checksum is awaited):
+      (s.outStart + s.d.blockSizeMax ≤ s.outBuffSize ∨ ∃ n, s.d.fcs = some n ∧ n ≤ s.outBuffSize)      -- room for the next block
       ∧ (s.segEnd ≠ 0 → s.d.blockSizeMax + s.d.windowSize ≤ s.segEnd)
       -- the `windowSize - outStart` bytes of history still needed from before the restart, [segEnd - (windowSize - outStart), segEnd),
       -- start after the end of the block about to be written, [outStart, outStart + blockSizeMax)
